@@ -5,10 +5,15 @@
     file <exists 0|1> <pathhex> <contenthex>                                              → ok <lines>
     smat <pathhex>                       Nodes.source_map(full_path)                      → ok l,c,el,ec | <error>
     quoteat <pathhex>                    quotation ErrorRender prints for the node        → ok <hex of "\n".join(lines)> | ok [] | <error>
+    renderat <pathhex> <tracehex,tracehex,…> <namehex> <messagehex>    the whole ErrorRender.render() text              → ok <hex> | <error>
     quote <l,c,el,ec>                    the same for an explicit source map (N = None)
     quoteraw <l,c,el,ec>                 Quotation(filepath, span − 1).build() directly (no exists/no-position guard)
     hull <span;span;…>                   span = bl,bc,el,ec ; hull of a token run          → ok bl,bc,el,ec | none
     chain <span;span;…>                  ordered and non-overlapping?                      → true | false
+    toks <s,e;s,e;…>                     lexer tokens by character offsets (into the current file content)         → ok <n> <offchain true|false>
+    tokpos <i>                           (line,col)..(line,col) of token i by own line/column arithmetic           → ok bl,bc,el,ec | none
+    ispan <lo> <hi>                      span of a tree that consumed tokens [lo, hi)                                → ok bl,bc,el,ec | none
+    iwf <itree>                          itree tokens: ( lo hi child … )  — the interface hypothesis                → true | false
     collect <steps> <span;span;…>        ErrorCollector._quotation_lines on the current file content (0-based token spans)
                                                                                           → ok <hex of "\n".join(lines)> | <error>
 -/
@@ -26,6 +31,8 @@ structure St where
   fileExists : Bool := false
   filepath : Str := []
   content : Str := []
+  toks : List Hull.OTok := []
+  spans : List Hull.TSpan := []
 
 instance : Inhabited St := ⟨{}⟩
 
@@ -39,6 +46,22 @@ def parseSpans (s : String) : Option (List Quote.Span) :=
     | _ => none
 
 def toT (s : Quote.Span) : Hull.TSpan := ⟨⟨s.bl, s.bc⟩, ⟨s.el, s.ec⟩⟩
+
+partial def parseITree : List String → Option (Hull.ITree × List String)
+  | "(" :: lo :: hi :: rest =>
+    let rec kids (acc : List Hull.ITree) (ts : List String) : Option (List Hull.ITree × List String) :=
+      match ts with
+      | ")" :: rest' => some (acc.reverse, rest')
+      | [] => none
+      | ts' => match parseITree ts' with
+        | some (e, rest') => kids (e :: acc) rest'
+        | none => none
+    match lo.toNat?, hi.toNat?, kids [] rest with
+    | some l, some h, some (cs, rest') => some (.node l h cs, rest')
+    | _, _, _ => none
+  | _ => none
+
+def showT (s : Hull.TSpan) : String := s!"{s.b.line},{s.b.col},{s.e.line},{s.e.col}"
 
 def showLines : Except Err (List Str) → String
   | .ok [] => "ok []"
@@ -66,6 +89,13 @@ def step (st : St) : List String → St × String
     match Str.unhex p with
     | some p' => (st, showLines (nodeQuotationIn st.paths p' st.fileExists st.filepath st.content))
     | none => (st, "bad-op")
+  | ["renderat", p, tr, nm, msg] =>
+    match Str.unhex p, (tr.splitOn ",").mapM Str.unhex, Str.unhex nm, Str.unhex msg with
+    | some p', some traces, some nm', some msg' =>
+      (st, match nodeRenderIn st.paths p' st.fileExists st.filepath st.content traces nm' msg' with
+        | .ok t => "ok " ++ Str.hex t
+        | .error e => e.toString)
+    | _, _, _, _ => (st, "bad-op")
   | ["quote", sm] =>
     match (sm.splitOn ",").mapM Entry.parsePos with
     | some [a, b, c, d] => (st, showLines (buildQuotation st.fileExists st.filepath st.content (.ok ⟨a, b, c, d⟩)))
@@ -84,6 +114,36 @@ def step (st : St) : List String → St × String
     match parseSpans spans with
     | some ss => (st, if decide (Hull.Chain (ss.map toT)) then "true" else "false")
     | none => (st, "bad-op")
+  | ["toks", spec] =>
+    let parsed : Option (List Hull.OTok) :=
+      if spec == "-" then some [] else
+      (spec.splitOn ";").mapM fun item =>
+        match (item.splitOn ",").mapM String.toNat? with
+        | some [a, b] => some ⟨a, b⟩
+        | _ => none
+    match parsed with
+    | some ts =>
+      let tab := (Hull.posScan ⟨1, 1⟩ st.content).toArray
+      let posAt (o : Nat) : Hull.P := (tab[o]?).getD (Hull.posOf st.content o)   -- = posOf (Lemmas: posScan_get)
+      ({ st with toks := ts, spans := ts.map fun t => ⟨posAt t.s, posAt t.e⟩ },
+        s!"ok {ts.length} {if decide (Hull.OffChain ts) then "true" else "false"}")
+    | none => (st, "bad-op")
+  | ["tokpos", i] =>
+    match i.toNat? with
+    | some k => (st, match st.spans[k]? with
+      | some sp => "ok " ++ showT sp
+      | none => "none")
+    | none => (st, "bad-op")
+  | ["ispan", lo, hi] =>
+    match lo.toNat?, hi.toNat? with
+    | some l, some h => (st, match Hull.spanOf st.spans l h with
+      | some sp => "ok " ++ showT sp
+      | none => "none")
+    | _, _ => (st, "bad-op")
+  | ["iwf", spec] =>
+    match parseITree (spec.splitOn " ") with
+    | some (t, []) => (st, if t.wf then "true" else "false")
+    | _ => (st, "bad-op")
   | ["collect", steps, spans] =>
     match steps.toInt?, parseSpans spans with
     | some n, some ss => (st, showLines (collectorLines st.content ss n))
